@@ -6,7 +6,7 @@
 #define OP2_KF_H
 typedef struct Fr { uint64_t len; uint64_t pos; } Fr;
 typedef struct SliceT { uint64_t start; uint64_t len; } SliceT;      /* a member stream: the file bytes [start, start+len) */
-#define FR_OK(r) (__CPROVER_rw_ok(r, sizeof(*(r))) && op2_exc == 0 && (r)->len <= ((uint64_t)1 << 62) && (r)->pos <= ((uint64_t)1 << 62))
+#define FR_OK(r) (__CPROVER_rw_ok(r, sizeof(*(r))) && op2_exc == 0)
 #define FR_AVAIL(r) (((r)->pos <= (r)->len) ? (r)->len - (r)->pos : 0)
 #define FR_AVAIL_OLD(r) ((OLD((r)->pos) <= OLD((r)->len)) ? OLD((r)->len) - OLD((r)->pos) : 0)
 void Fr_Read(Fr* r, void* buffer, size_t size)
@@ -17,9 +17,9 @@ void Fr_Read(Fr* r, void* buffer, size_t size)
 uint64_t Fr_Length(Fr* r)   __CPROVER_requires(FR_OK(r)) __CPROVER_assigns() __CPROVER_ensures(__CPROVER_return_value == r->len && op2_exc == 0);
 uint64_t Fr_Position(Fr* r) __CPROVER_requires(FR_OK(r)) __CPROVER_assigns() __CPROVER_ensures(__CPROVER_return_value == r->pos && op2_exc == 0);
 void Fr_Seek(Fr* r, uint64_t position)
-  __CPROVER_requires(FR_OK(r) && position <= ((uint64_t)1 << 62)) __CPROVER_assigns(r->pos) __CPROVER_ensures(r->pos == position && r->len == OLD(r->len) && op2_exc == 0);
+  __CPROVER_requires(FR_OK(r)) __CPROVER_assigns(r->pos) __CPROVER_ensures(r->pos == position && r->len == OLD(r->len) && op2_exc == 0);
 void Fr_SeekForward(Fr* r, uint64_t offset)
-  __CPROVER_requires(FR_OK(r) && (W(r->pos) + W(offset) <= (W(1) << 62) || W(r->pos) + W(offset) > W(UINT64_MAX)))
+  __CPROVER_requires(FR_OK(r))
   __CPROVER_assigns(op2_exc, r->pos)
   __CPROVER_ensures(op2_exc == ((W(OLD(r->pos)) + W(offset) > W(UINT64_MAX)) ? 1 : 0))
   __CPROVER_ensures(r->pos == OLD(r->pos) + (op2_exc ? 0 : offset) && r->len == OLD(r->len));
